@@ -70,8 +70,18 @@ def gen(rng, tier, ctx):
                         ["ref", "next"]])
     rule = gen_rule(rng, names, rng.randint(0, 3), itertools.count(), gctx, kinds)
     if nv == 2:
-        rule["cond"] = ["and", rule["cond"], ["cmp", rng.choice(GEN.CMP), ["attr", ["var", "x"], rng.choice("ab")],
-                                              ["attr", ["var", "y"], rng.choice("ab")]]]
+        join = ["cmp", rng.choice(GEN.CMP), ["attr", ["var", "x"], rng.choice("ab")], ["attr", ["var", "y"], rng.choice("ab")]]
+        if rng.random() < 0.1:
+            # the listed finding: the base conjunction can short-circuit before the second variable is bound
+            rule["cond"] = ["and", rule["cond"], join]
+        else:
+            rule["cond"] = ["and", join, rule["cond"]]      # the comparison binds both variables first
+        # conclusions that use different sets of variables
+        def mark(r):
+            r["concl"] = rng.choice(["xy", "xy", "x"])
+            for _, ch in r["children"]:
+                mark(ch)
+        mark(rule)
     return {"world": world, "vars": vars_, "rule": rule}
 
 
@@ -265,7 +275,7 @@ def build_and_run(spec, m, objs):
 
     def conclude(r):
         kw = {"tag": r["id"], "p": V[names[0]]}
-        if len(names) > 1:
+        if len(names) > 1 and r.get("concl", "xy") == "xy":
             kw["q"] = V[names[1]]
         Add(v, inference(m.V)(**kw))
 
@@ -290,6 +300,16 @@ def run(spec, ctx):
     feats = tree_features(spec["rule"])
     feats["nvars"] = len(names)
     feats["alt_after_next_flat"] = _alt_after_next(normalize(spec["rule"]))
+    bc_ = spec["rule"]["cond"]
+    feats["base_short_circuits"] = int(len(names) == 2 and bc_[0] == "and" and len(G.cond_vars(bc_[1])) < 2)
+
+    def next_binds_one(r):
+        return any((k == "next" and len(G.cond_vars(ch["cond"])) < 2) or next_binds_one(ch) for k, ch in r["children"])
+
+    # a next_rule is evaluated a second time on its own (nothing bound): if its conditions do not mention every
+    # variable its conclusion uses, the conclusion is built while a variable is still unbound
+    if len(names) == 2 and next_binds_one(spec["rule"]):
+        feats["base_short_circuits"] = 1
     for k in ("kind:ref", "kind:alt", "kind:next"):
         C[k] += feats[k]
     # expected
@@ -297,6 +317,14 @@ def run(spec, ctx):
     ospec = {"world": spec["world"], "vars": spec["vars"], "derived": []}
     exp = set()
     fired_sets = Counter()
+    concl_of = {}
+
+    def collect(r):
+        concl_of[r["id"]] = r.get("concl", "xy")
+        for _, ch in r["children"]:
+            collect(ch)
+
+    collect(spec["rule"])
     for combo in itertools.product(*doms):
         A = dict(zip(names, combo))
 
@@ -309,7 +337,10 @@ def run(spec, ctx):
         C["bindings_interpreted"] += 1
         fired_sets[frozenset(ids)] += 1
         for rid in ids:
-            exp.add((rid,) + tuple(idmap[id(o)] for o in combo))
+            if len(names) > 1 and concl_of.get(rid, "xy") == "x":
+                exp.add((rid, idmap[id(combo[0])], None))
+            else:
+                exp.add((rid,) + tuple(idmap[id(o)] for o in combo))
     try:
         res = build_and_run(spec, m, objs)
     except Exception as e:
@@ -322,7 +353,7 @@ def run(spec, ctx):
         if not isinstance(r, m.V):
             bad_inst.append(repr(r))
             continue
-        key = (r.tag, idmap.get(id(r.p), "?")) + ((idmap.get(id(r.q), "?"),) if len(names) > 1 else ())
+        key = (r.tag, idmap.get(id(r.p), "?")) + (((idmap.get(id(r.q), "?") if r.q is not None else None),) if len(names) > 1 else ())
         got.add(key)
     C["instances_compared"] += len(got)
     if got == exp and not bad_inst:
@@ -343,7 +374,7 @@ def classify(feats, direction):
     """listed findings (see known-findings.txt); direction = (extra, missing) or None for an exception"""
     if feats["alt_after_next_flat"]:
         return "alternative-after-next-rule"
-    if feats["nvars"] == 2 and direction == (False, True):
+    if feats["nvars"] == 2 and feats["base_short_circuits"] and direction == (False, True):
         return "conclusion-unbound-variable-first-only"
     return None
 
